@@ -331,12 +331,14 @@ class C24(core.Check):
 
 
 C24.level_text = (
-    "Lean theorems, all unbounded: suffix_order (fixed-width hex suffix is order-isomorphic to the ordinal, every ordinal < 16^32), unsuffix_suffix, "
-    "contiguous (under the sep-prefix-free guard nothing foreign sorts between two entries of a key), plain_refines_dict (Suber = Key -> Val, unconditional), "
-    "io_refines_dict_partial / ioset_refines_dict_partial (every method of IoSuber / IoSetSuber returns what Key -> List Val / Key -> ordered set returns, for every history over a "
-    "sep-prefix-free key set, and other keys are unchanged), refines_dict_fails_without_guard (F39 witness by decide, replayed on the code, known finding C24-K1). "
-    "The model is tied to the code by the regenerated constants and by a differential run on real lmdb.")
+    "Lean theorems, all unbounded: suffix_order (fixed-width hex suffix is order-isomorphic to the ordinal, every ordinal < 16^32), unsuffix_suffix_id, "
+    "contiguous_under_guard + scan_sees_all_under_guard (under the sep-prefix-free guard nothing foreign sorts between two entries of a key), plain_refines_dict (Suber = Key -> Val, unconditional), "
+    "io_refines_dict_partial / ioset_refines_dict_partial (add/put/pin/get/iter/getFirst/getLast/pop/rem/rem(val)/cnt of IoSuber / IoSetSuber return what Key -> List Val / Key -> ordered set "
+    "returns, for every history over a sep-prefix-free key set), other_key_unchanged_partial, getLast_partial; with NO guard: reachable_inv / reachable_no_valueError (every reachable sub-db is "
+    "well-formed, no scan raises ValueError). The full unguarded statement is false: refines_dict_fails_without_guard (F39) and getLast_fails_without_guard by decide, both replayed on the code "
+    "(known findings C24-K1, C24-K2). getItemIter and cntAll are carried by the correspondence only. The model is tied to the code by regenerated constants + a suffix/unsuffix probe table "
+    "(gen_* theorems) and by a differential run on real lmdb that also compares the raw sub-db content.")
 C24.level_note = ("Trusted: Lean kernel + propext/Classical.choice/Quot.sound; the sorted-list model of lmdb; the translator; that the sampled correspondence is representative. "
-                  "getFirst/getLast/pop ignoring a custom ionsep is outside the quantifier (default separator only).")
+                  "The guard SepFree is sufficient, not necessary (the exact failure condition is the K1/K2 trigger). getFirst/getLast/pop ignoring a custom ionsep is outside the quantifier.")
 
 CHECK = C24()
